@@ -147,56 +147,70 @@ theorem go_null_only_if_final_partial_real (K : Keys) (L : Limits) (clock : Cloc
   (final_iff_rules K hv).1
     (Props.C06.go_null_only_if_final_partial (realComp K) L clock (realComp_laws K) fuel e b hv hok nodes0 hd hfuel hanom hnull)
 
-/-! ### score range, the null move without ghost flags, final roots
+/-! ### score range, the null move without `anomaly` / `fuelOut` / `GoSane`, final roots
 
-  `ScoreLaws` is proved for the real components WITH the null-move guard `beta > -Inf+MaxPlies`
-  (`realCompG`, Proofs/SearchRealScore.lean: `real_scoreLaws`); the guard is what reverse futility
-  pruning has and the null move lacks in search.go (see the header of that file for the scenario in
-  which the unguarded null move hands the table a value it re-bases beyond `Inf`).  The theorems
-  about `realComp K` therefore carry the run-level hypothesis `NmpSane` — this run is the run of the
-  guarded record, i.e. no null-move cut-off was taken at a node whose `beta` lies below the mate
-  band.  `GoSane` (Props/C06.lean) is NOT needed for the real parameters: `WindowSize = 44` keeps every
-  aspiration chain within `±(Inf + 512·44)` and reverse futility is sound there at depths ≤ 2
-  (`AspLaws`, Proofs/SearchScoreFree.lean, Proofs/SearchFinalFree.lean).  Neither a ghost flag nor a
-  fuel hypothesis remains. -/
+  `ScoreLaws` and `AspLaws` are proved for the real components (`real_scoreLaws_with`,
+  `real_aspLaws_with`, Proofs/SearchRealScore.lean).  What the real null-move test lacks — the
+  mate-band guard `beta > -Inf+MaxPlies` that reverse futility pruning has in search.go — is not a law
+  any more but an EVENT the skeleton records in the ghost flag `St.nmpOut`: null-move pruning took
+  its mate branch (`value >= Inf-MaxPlies → return beta`) at a node whose `beta` lies below
+  `-Inf + ply` (an ancestor has already found a shorter mate), handing out a score no position at
+  that ply can have.  An ordinary null-move cut-off inside the mate band (`return value`) is
+  harmless: `value` is the negated child result and ply-consistent by the child's range theorem.
+
+  The theorems about `realComp K` carry ONE run-level hypothesis: `nmpOut = false` at the end of the
+  run (the flag is monotone, so the event did not happen anywhere in it) — measured on every
+  search of the `searchx` correspondence suite (the driver prints the flag).  `GoSane` is not needed
+  (`WindowSize = 44`), nor a ghost `anomaly` / `fuelOut` hypothesis.  For the record with the guard
+  (`realCompG`) the flag provably stays down (`NmpFloor`, Proofs/SearchNmpFloor.lean) and the theorems
+  are hypothesis-free. -/
 
 /-- the table invariant of the real components: `PSok` and every raw table value within `±Inf`. -/
 theorem ttokReal_new (buckets : Nat) : TTokReal (newEngine buckets).ps := SearchReal.ttokReal_new buckets
 theorem ttokReal_clear (e : Engine PS) : TTokReal (clearEngine e).ps := SearchReal.ttokReal_clear e
 
-/-- **The score laws hold for the real components with the null-move guard.** -/
+/-- **The score laws hold for the real components** (any coefficient set; also with the guard). -/
 theorem real_scoreLaws_hold (K : Keys) (cs : Eval.CoeffSet Int) :
+    ScoreLaws (realCompWith K cs) RealGood TTokReal muReal := real_scoreLaws_with K cs
+theorem real_scoreLaws_guarded (K : Keys) (cs : Eval.CoeffSet Int) :
     ScoreLaws (realCompG K cs) RealGood TTokReal muReal := real_scoreLaws K cs
-
-/-- run-level hypothesis: the run of the real components coincides with the run of the guarded ones. -/
-def NmpSane (K : Keys) (L : Limits) (clock : Clock) (fuel : Nat) (e : Engine PS) (b : Board) (nodes0 : Int := 0) : Prop :=
-  go (realComp K) L clock fuel e b nodes0 = go (realCompG K Eval.shipped) L clock fuel e b nodes0
 
 /-- the parameter laws of the `GoSane`-free argument hold for the real parameters (`WindowSize = 44`,
     `RFPScoreFactor = 102`: regenerated constants, re-checked when /repo changes). -/
-theorem real_aspLaws_hold (K : Keys) (cs : Eval.CoeffSet Int) : AspLaws (realCompG K cs) := real_aspLaws K cs
+theorem real_aspLaws_hold (K : Keys) (cs : Eval.CoeffSet Int) : AspLaws (realCompWith K cs) := real_aspLaws_with K cs
+theorem real_aspLaws_guarded (K : Keys) (cs : Eval.CoeffSet Int) : AspLaws (realCompG K cs) := real_aspLaws K cs
 
-/-- every `go` of the guarded components keeps the table invariant — completed, stopped, out of
-    budget, out of fuel; no hypothesis on the run (the content of repair D8, now with the table's own
-    re-basing of mate scores). -/
+/-- the real null-move test is NOT guarded against the mate band, the guarded record is; with the
+    guard the flag is down after every search. -/
+theorem real_nmp_unguarded (K : Keys) (cs : Eval.CoeffSet Int) : ¬ NmpFloor (realCompWith K cs) := nmp_floor_fails K cs
+theorem guarded_nmpFloor (K : Keys) (cs : Eval.CoeffSet Int) : NmpFloor (realCompG K cs) := nmpFloor_realCompG K cs
+theorem go_nmpOut_guarded (K : Keys) (L : Limits) (clock : Clock) (fuel : Nat) (e : Engine PS) (b : Board) (nodes0 : Int) :
+    (go (realCompG K Eval.shipped) L clock fuel e b nodes0).st.nmpOut = false :=
+  go_nmpOut_false _ (nmpFloor_realCompG K _) L clock fuel e b nodes0
+
+/-- every `go` keeps the table invariant — completed, stopped, out of budget, out of fuel — as long
+    as the ghost flag is down at the end (the content of repair D8, now with the table's own re-basing
+    of mate scores). -/
+theorem go_keeps_table_invariant_real (K : Keys) (L : Limits) (clock : Clock) (fuel : Nat) (e : Engine PS) (b : Board)
+    (hv : Board.valid b = true) (nodes0 : Int) (hd : 1 ≤ L.depth) (htt : TTokReal e.ps)
+    (hA : (go (realComp K) L clock fuel e b nodes0).st.nmpOut = false) :
+    TTokReal (go (realComp K) L clock fuel e b nodes0).engine.ps :=
+  Props.C06.go_keeps_table_invariant_free (realComp K) L clock (realComp_laws K) (real_scoreLaws_with K _)
+    (real_aspLaws_with K _) fuel e b hv nodes0 hd htt hA
+
 theorem go_keeps_table_invariant_guarded (K : Keys) (L : Limits) (clock : Clock) (fuel : Nat) (e : Engine PS) (b : Board)
     (hv : Board.valid b = true) (nodes0 : Int) (hd : 1 ≤ L.depth) (htt : TTokReal e.ps) :
     TTokReal (go (realCompG K Eval.shipped) L clock fuel e b nodes0).engine.ps :=
   Props.C06.go_keeps_table_invariant_free (realCompG K Eval.shipped) L clock (realCompG_laws K _) (real_scoreLaws K _)
-    (real_aspLaws K _) fuel e b hv nodes0 hd htt
+    (real_aspLaws K _) fuel e b hv nodes0 hd htt (go_nmpOut_guarded K L clock fuel e b nodes0)
 
-theorem go_keeps_table_invariant_real (K : Keys) (L : Limits) (clock : Clock) (fuel : Nat) (e : Engine PS) (b : Board)
-    (hv : Board.valid b = true) (nodes0 : Int) (hd : 1 ≤ L.depth) (htt : TTokReal e.ps)
-    (hnmp : NmpSane K L clock fuel e b nodes0) :
-    TTokReal (go (realComp K) L clock fuel e b nodes0).engine.ps := by
-  rw [hnmp]; exact go_keeps_table_invariant_guarded K L clock fuel e b hv nodes0 hd htt
-
-/-- the engine states of a session in which no search took a null-move cut-off below the mate band. -/
+/-- the engine states of a session in which no search raised the flag. -/
 inductive SessionS (K : Keys) : Engine PS → Prop where
   | new (buckets : Nat) : SessionS K (newEngine buckets)
   | clear {e} : SessionS K e → SessionS K (clearEngine e)
   | go {e} (L : Limits) (clock : Clock) (fuel : Nat) (b : Board) (nodes0 : Int) :
-      SessionS K e → Board.valid b = true → 1 ≤ L.depth → NmpSane K L clock fuel e b nodes0 →
+      SessionS K e → Board.valid b = true → 1 ≤ L.depth →
+      (go (realComp K) L clock fuel e b nodes0).st.nmpOut = false →
       SessionS K (go (realComp K) L clock fuel e b nodes0).engine
 
 theorem sessionS_ok {K : Keys} {e : Engine PS} (h : SessionS K e) : TTokReal e.ps := by
@@ -213,16 +227,16 @@ theorem sessionS_session {K : Keys} {e : Engine PS} (h : SessionS K e) : Session
 
 /-- **The null move is returned only if the root is final** (rule-book reading) — every key table,
     valid root, depth limit ≥ 1, limit combination, clock, fuel, abort point and admissible engine
-    state; no ghost flag, no fuel hypothesis, no `GoSane`.  The one remaining hypothesis is `NmpSane`. -/
+    state; no `anomaly` / `fuelOut` / `GoSane` hypothesis.  The one run-level hypothesis: the flag
+    `nmpOut` is down at the end of the run. -/
 theorem go_null_only_if_final_real (K : Keys) (L : Limits) (clock : Clock) (fuel : Nat) (e : Engine PS) (b : Board)
     (hv : Board.valid b = true) (nodes0 : Int) (hd : 1 ≤ L.depth) (htt : TTokReal e.ps)
-    (hnmp : NmpSane K L clock fuel e b nodes0)
+    (hA : (go (realComp K) L clock fuel e b nodes0).st.nmpOut = false)
     (hnull : (go (realComp K) L clock fuel e b nodes0).move = 0) :
-    Rules.legalMoves (Board.abs b) = [] ∨ b.fifty ≥ 100 ∨ b.threefold ≥ 3 := by
-  rw [hnmp] at hnull
-  exact (final_iff_rules K hv).1
-    (Props.C06.go_null_only_if_final_free (realCompG K Eval.shipped) L clock (realCompG_laws K _) (real_scoreLaws K _)
-      (real_aspLaws K _) fuel e b hv nodes0 hd htt hnull)
+    Rules.legalMoves (Board.abs b) = [] ∨ b.fifty ≥ 100 ∨ b.threefold ≥ 3 :=
+  (final_iff_rules K hv).1
+    (Props.C06.go_null_only_if_final_free (realComp K) L clock (realComp_laws K) (real_scoreLaws_with K _)
+      (real_aspLaws_with K _) fuel e b hv nodes0 hd htt hA hnull)
 
 /-- … for the engine with the null-move guard there is no hypothesis on the run at all. -/
 theorem go_null_only_if_final_guarded (K : Keys) (L : Limits) (clock : Clock) (fuel : Nat) (e : Engine PS) (b : Board)
@@ -231,22 +245,21 @@ theorem go_null_only_if_final_guarded (K : Keys) (L : Limits) (clock : Clock) (f
     Rules.legalMoves (Board.abs b) = [] ∨ b.fifty ≥ 100 ∨ b.threefold ≥ 3 :=
   (final_iff_rules K hv).1
     (Props.C06.go_null_only_if_final_free (realCompG K Eval.shipped) L clock (realCompG_laws K _) (real_scoreLaws K _)
-      (real_aspLaws K _) fuel e b hv nodes0 hd htt hnull)
+      (real_aspLaws K _) fuel e b hv nodes0 hd htt (go_nmpOut_guarded K L clock fuel e b nodes0) hnull)
 
 /-- A search that runs to completion on a final root returns the null move with score 0, or with the
-    mated score `-Inf` for a checkmated root (no `GoSane`; `NmpSane` as above). -/
+    mated score `-Inf` for a checkmated root (hypothesis as above). -/
 theorem go_final_score_real (K : Keys) (L : Limits) (clock : Clock) (fuel : Nat) (e : Engine PS) (b : Board)
     (hv : Board.valid b = true) (nodes0 : Int) (hd : 1 ≤ L.depth) (htt : TTokReal e.ps)
-    (hnmp : NmpSane K L clock fuel e b nodes0)
+    (hA : (go (realComp K) L clock fuel e b nodes0).st.nmpOut = false)
     (hfin : Rules.legalMoves (Board.abs b) = [] ∨ b.fifty ≥ 100 ∨ b.threefold ≥ 3)
     (hdone : (go (realComp K) L clock fuel e b nodes0).st.aborted = false) :
     (go (realComp K) L clock fuel e b nodes0).move = 0 ∧
       ((go (realComp K) L clock fuel e b nodes0).score = 0 ∨
         (b.inCheck b.stm = true ∧ Rules.legalMoves (Board.abs b) = [] ∧
           (go (realComp K) L clock fuel e b nodes0).score = -Inf)) := by
-  rw [hnmp] at hdone ⊢
-  have h := Props.C06.go_final_score_free (realCompG K Eval.shipped) L clock (realCompG_laws K _) (real_scoreLaws K _)
-    (real_aspLaws K _) fuel e b hv nodes0 hd htt ((final_iff_rules K hv).2 hfin) hdone
+  have h := Props.C06.go_final_score_free (realComp K) L clock (realComp_laws K) (real_scoreLaws_with K _)
+    (real_aspLaws_with K _) fuel e b hv nodes0 hd htt hA ((final_iff_rules K hv).2 hfin) hdone
   refine ⟨h.1, h.2.imp id (fun ⟨h1, h2, h3⟩ => ⟨h1, ?_, h3⟩)⟩
   have hlen := Props.C01.playable_length K hv
   have h2' : MoveGen.playable K b = [] := h2
@@ -263,30 +276,33 @@ theorem go_final_score_guarded (K : Keys) (L : Limits) (clock : Clock) (fuel : N
         (b.inCheck b.stm = true ∧ MoveGen.playable K b = [] ∧
           (go (realCompG K Eval.shipped) L clock fuel e b nodes0).score = -Inf)) :=
   Props.C06.go_final_score_free (realCompG K Eval.shipped) L clock (realCompG_laws K _) (real_scoreLaws K _)
-    (real_aspLaws K _) fuel e b hv nodes0 hd htt ((final_iff_rules K hv).2 hfin) hdone
+    (real_aspLaws K _) fuel e b hv nodes0 hd htt (go_nmpOut_guarded K L clock fuel e b nodes0)
+    ((final_iff_rules K hv).2 hfin) hdone
+
+/-- The former hypothesis `NmpSane` (the run coincides with the run of the guarded record — measured
+    to FAIL on about 1 % of searches: once a mate is found the unguarded test fires in every sibling
+    and the trees differ) implies the present one; it is kept as a corollary only. -/
+def NmpSane (K : Keys) (L : Limits) (clock : Clock) (fuel : Nat) (e : Engine PS) (b : Board) (nodes0 : Int := 0) : Prop :=
+  go (realComp K) L clock fuel e b nodes0 = go (realCompG K Eval.shipped) L clock fuel e b nodes0
+
+theorem nmpSane_flag {K : Keys} {L : Limits} {clock : Clock} {fuel : Nat} {e : Engine PS} {b : Board} {nodes0 : Int}
+    (h : NmpSane K L clock fuel e b nodes0) : (go (realComp K) L clock fuel e b nodes0).st.nmpOut = false := by
+  rw [h]; exact go_nmpOut_guarded K L clock fuel e b nodes0
 
 /-- non-vacuity of the score part: a fresh engine satisfies the table invariant, the start position is
-    a valid root, and `NmpSane` holds trivially for a run without fuel (both records give up at once). -/
+    a valid root, and the flag is down for a run without fuel. -/
 example (n : Nat) : TTokReal (newEngine n).ps := ttokReal_new n
-example (K : Keys) (L : Limits) (clock : Clock) (e : Engine PS) (b : Board) : NmpSane K L clock 0 e b := by
-  unfold NmpSane go
-  have h : ∀ (c : Comp PS Pick) (v : IDVars) (s : St PS),
-      idLoop c L clock 0 64 0 v s =
-        (if !((0 : Int) < maxPlies && (decide ((0 : Int) ≤ L.depth) || s.pondering)) then
-          { score := v.score, move := v.move, ponder := v.ponder, out := v.out, st := s }
-        else
-          let out := if L.output then
-            { depth := 0, full := false, score := 0, nodes := s.outOfFuel.nodes, time := 0, hashfull := 0, pv := [] } :: v.out
-            else v.out
-          if v.move = 0 then
-            { score := v.score, move := (firstLegal c.keys s.outOfFuel.board (MoveGen.gen s.outOfFuel.board)).1, ponder := 0,
-              out := out, st := s.outOfFuel.setBoard (firstLegal c.keys s.outOfFuel.board (MoveGen.gen s.outOfFuel.board)).2 }
-          else { score := v.score, move := v.move, ponder := v.ponder, out := out, st := s.outOfFuel }) := by
-    intro c v s
-    show idLoop c L clock 0 (63 + 1) 0 v s = _
+example (K : Keys) (L : Limits) (clock : Clock) (e : Engine PS) (b : Board) :
+    (go (realComp K) L clock 0 e b).st.nmpOut = false := by
+  have h : ∀ (c : Comp PS Pick) (v : IDVars) (s : St PS), s.nmpOut = false →
+      (idLoop c L clock 0 64 0 v s).st.nmpOut = false := by
+    intro c v s hs
+    show (idLoop c L clock 0 (63 + 1) 0 v s).st.nmpOut = false
     simp only [idLoop, aspiration]
-  rw [h, h]
-  rfl
+    split
+    · exact hs
+    · split <;> exact hs
+  exact h _ _ _ rfl
 
 /-! ### non-vacuity -/
 
